@@ -12,10 +12,13 @@ import time
 from concurrent.futures import ThreadPoolExecutor
 
 ROOT = os.path.dirname(os.path.dirname(os.path.abspath(__file__)))
-WORK = os.path.join(ROOT, "work")
+WORK = os.path.join(ROOT, "work") if os.environ.get("VERIF_REPO", "/repo") == "/repo" else os.path.join(ROOT, "work", "alt-" + hashlib.sha1(os.environ["VERIF_REPO"].encode()).hexdigest()[:8])
 SPEC = os.path.join(ROOT, "spec")
 HARNESS = os.path.join(ROOT, "harness")
-REPO = "/repo"
+# The registered checks always use /repo.  VERIF_REPO lets the mutation-evaluation tools point the same
+# checks at a scratch checkout (cargo `paths` override, separate target directory) without touching /repo.
+REPO = os.environ.get("VERIF_REPO", "/repo")
+ALT = REPO != "/repo"
 # work/gen holds LayoutSrc.tla regenerated from /repo/src/lib.rs (it shadows the committed placeholder spec/gen)
 TLA_LIB = ":".join([os.path.join(WORK, "gen"), SPEC, os.path.join(SPEC, "mech"), os.path.join(SPEC, "mc"), os.path.join(SPEC, "trace"), os.path.join(SPEC, "gen")])
 
@@ -48,7 +51,11 @@ def build_harness(features=(), target="target"):
     lock = open(os.path.join(WORK, "cargo.lock"), "w")
     fcntl.flock(lock, fcntl.LOCK_EX)
     try:
+        if ALT:
+            target = target + "-alt"
         cmd = ["cargo", "build", "--offline", "--target-dir", target]
+        if ALT:
+            cmd += ["--config", 'paths=["%s"]' % REPO]
         if features:
             cmd += ["--features", ",".join(features)]
         t0 = time.time()
@@ -409,7 +416,7 @@ def refresh_layout_src():
     (only C01/C19 depend on it and they call the parser themselves)."""
     try:
         import srcparse
-        srcparse.write_layout_src(srcparse.parse_layout_src(), os.path.join(WORK, "gen", "LayoutSrc.tla"))
+        srcparse.write_layout_src(srcparse.parse_layout_src(REPO), os.path.join(WORK, "gen", "LayoutSrc.tla"))
     except Exception:
         try:
             os.remove(os.path.join(WORK, "gen", "LayoutSrc.tla"))
